@@ -49,6 +49,9 @@ pub struct GenCfg {
     pub skipper_pct: u32,
     /// percent chance (per shape draw, stack profiles only) of the branch-over-stack-changing-bodies shape
     pub restorer_pct: u32,
+    /// percent chance (per shape draw) of an ordered choice whose alternatives are built from prefixes of ONE base
+    /// string (keyword / longer keyword / identifier start), some under `!`, some followed by something that fails
+    pub prefix_family_pct: u32,
 }
 
 impl GenCfg {
@@ -71,6 +74,7 @@ impl GenCfg {
             long_literals_pct: 0,
             skipper_pct: 0,
             restorer_pct: 0,
+            prefix_family_pct: 0,
         }
     }
 }
@@ -685,6 +689,34 @@ impl<'a> G<'a> {
                     }
                 }
                 alts.push(e);
+            }
+            let mut it = alts.into_iter();
+            let mut ch = it.next().unwrap();
+            for a in it {
+                ch = Expr::Choice(Box::new(ch), Box::new(a));
+            }
+            let _ = need;
+            return Some(ch);
+        }
+        if self.cfg.prefix_family_pct > 0 && self.rng.chance(self.cfg.prefix_family_pct, 100) {
+            const BASES: &[&str] = &["abcdefghijklmnop", "aaaaaaaaaaaaaaaa", "abababababababab", "keyword_or_identifier", "éaéaéaéaéaéa", "a🎈b🎈c🎈d🎈e🎈"];
+            let base: Vec<char> = self.rng.pick(BASES).chars().collect();
+            let n = 2 + self.rng.below(4);
+            let mut alts: Vec<Expr> = vec![];
+            for _ in 0..n {
+                let len = 1 + self.rng.below(base.len());
+                let pre: String = base[..len].iter().collect();
+                let lit = if self.rng.chance(1, 5) { Expr::Insens(pre) } else { Expr::Str(pre) };
+                let short: String = base[..1 + self.rng.below(3)].iter().collect();
+                alts.push(match self.rng.below(5) {
+                    // the prefix, then something that is not what follows in the base string
+                    0 | 1 => Expr::Seq(Box::new(lit), Box::new(Expr::Str((*self.rng.pick(&["X", "-", "é", "zz"])).to_string()))),
+                    // not this (longer) prefix, then a short piece
+                    2 => Expr::Seq(Box::new(Expr::NegPred(Box::new(lit))), Box::new(Expr::Str(short))),
+                    // only if this prefix is there, a short piece
+                    3 => Expr::Seq(Box::new(Expr::PosPred(Box::new(lit))), Box::new(Expr::Str(short))),
+                    _ => lit,
+                });
             }
             let mut it = alts.into_iter();
             let mut ch = it.next().unwrap();
